@@ -14,6 +14,7 @@ EXTENDS FormulaText, TLC, Json, IOUtils, SequencesExt, FiniteSetsExt
 CONSTANTS MaxNodes,      \* 3 or 4: largest tree over the wide leaves
           LetDepth,      \* 1 or 2: size of the expression bound by the statement of a Let
           Level,         \* "quick" | "thorough": how much of the fragment grammar's product
+          PerMid, PerLet, PerBig,   \* how many of its spellings a tree of that family gets (0 = all), taken in turn
           Lanes
 
 Map1(A, G(_)) == [j \in 1..Len(A) |-> G(A[j])]
@@ -74,9 +75,11 @@ SpellingsOf(t) ==
           \o (IF t[1] = "Let" THEN <<"semicolon">> ELSE <<>>)
 AllSpellings == General \o <<"fstr", "triple", "ftriple">> \o Blocks \o <<"semicolon">>
 
-Fam(A, fam) == [j \in 1..Len(A) |-> [t |-> A[j], sp |-> SpellingsOf(A[j]), fam |-> fam]]
-Items == Fam(S1 \o S2, "small") \o Fam(Conds, "cond") \o Fam(S3, "mid") \o Fam(Lets, "let")
-         \o (IF MaxNodes >= 4 THEN Fam(S4(0), "big") ELSE <<>>)
+\* k of the spellings that apply, starting at a position that moves with the tree (0 = all of them)
+Pick(sp, j, k) == IF k = 0 \/ k >= Len(sp) THEN sp ELSE [q \in 1..k |-> sp[((j + q - 2) % Len(sp)) + 1]]
+Fam(A, fam, k) == [j \in 1..Len(A) |-> [t |-> A[j], sp |-> Pick(SpellingsOf(A[j]), j, k), fam |-> fam]]
+Items == Fam(S1 \o S2, "small", 0) \o Fam(Conds, "cond", 0) \o Fam(S3, "mid", PerMid) \o Fam(Lets, "let", PerLet)
+         \o (IF MaxNodes >= 4 THEN Fam(S4(0), "big", PerBig) ELSE <<>>)
 N == Len(Items)
 
 Rows == <<<<0, 3>>, <<1, 0>>, <<2, -1>>, <<-3, 2>>>>
@@ -164,6 +167,7 @@ Sane(k) ==
      \* (the clauses that do not look at the tree: on the first trees only)
      /\ k > 8 \/
         /\ "C19.ok" \in FClauses(in, [Ref(in, FALSE) EXCEPT !.same = FALSE])
+        /\ "C19.ok" \in FClauses(in, [good EXCEPT !.consistent = FALSE])
         /\ "C19.others" \in FClauses(in, [good EXCEPT !.s3.K = Corrupt(@, n1, VInt(99))])
         /\ "C19.usable" \in FClauses(in, [good EXCEPT !.s3.K = Corrupt(@, n1, VInt(99))])
         /\ "C19.loc" \in FClauses(in, [good EXCEPT !.s2.G = Corrupt(@, 1, Err)])
